@@ -85,6 +85,11 @@ CHECKS = {
     technique="Host.tla has no register pool, so the property is a conformance statement: long histories (hundreds of completed SDK operations on one connection) must compile on the real SDK and be accepted by TLC trace validation (HostTrace)",
     text="15 directed kinds (if with each of the six comparisons on futures, if on two futures, loop, foreach/enumerate, loop_until, add with a future operand, measure into array / register, three-deep nesting that uses the outer indices, operations with empty bodies) are repeated 40 times each with a flush after every 1st / 3rd / 10th operation, plus random mixed histories of 100-400 operations nested to depth 4; any resource error of the builder ('could not find an available loop register', 'Ran out of M-registers', ...) is a violation, and every history is validated against Host.tla so that a temporary overwriting a live loop index shows as a wrong result.",
     note="Trusted: as C05. The register leaks of if_ez/if_nz and loop_until were found by this check and repaired in /repo (8c1ccff)."),
+ "C09": dict(
+    engine="c09", category="model_checking", design="5 C09",
+    technique="TLA+ spec of live qubit handles and the qubit budget (Qubits.tla); legal histories are executed on the real SDK -> controller (with the rig's link answering EPR requests) and validated by TLC; failing histories are shrunk by event deletion",
+    text="The specification keeps the set of live handles and the guards (allocation and keep need free slots; budget - 1 on NV hardware; sequential forms need one slot, context forms n). Random legal histories of qubit creation, gates, in-place and destructive measurement, free, create/recv keep, sequential post routines, contexts and flushes for budgets 1..5 on generic hardware (full grammar) and NV hardware with and without the NV transpiler (single-pair requests, sequential form), plus the directed patterns of the property text, run through the real pipeline; at every flush TLC checks: no controller fault, active_qubits = the controller's allocated virtual qubits, their number = |live|, every live handle owns a distinct allocated id.",
+    note="Trusted: TLC, harness/eng_c09.py (mirrors the spec's guards when generating). NV multi-pair requests, NV contexts and carbon-carbon gates under the NV transpiler are exercised only by directed cases that are listed as known findings. Four defects found and repaired in /repo (free, context, sequential ID release; NV relocation peephole)."),
 }
 
 REASON_TODO = "check not built yet (work in progress; see DESIGN.md section 9)"
